@@ -90,9 +90,68 @@ func c19Profiles(tier string) []Profile {
 			func(w *harness.World) { w.GetItemRaw("x", kB, false); w.Exist("x", kB) },
 			func(w *harness.World) { w.GetItemRaw("x", kB, false) },
 		}}
+	// value sizes on a ladder around the usual thresholds (page, 64 KiB slice)
+	ladder := []int{0, 255, 4096, 8192}
+	sd := 1
+	if tier == "thorough" {
+		ladder = []int{0, 1, 255, 256, 4095, 4096, 4097, 65535, 65536, 70000}
+		sd = 2
+	}
+	mkVal := func(n int, fill byte) []byte {
+		v := make([]byte, n)
+		for i := range v {
+			v[i] = fill + byte(i%7)
+		}
+		return v
+	}
+	var curLen int
+	sizes := &SeqProfile{Name: "lazy-sizes", Keys: keys, Depth: sd, Mon: mon, Finish: p.Finish,
+		Init: func(w *harness.World) {
+			curLen = ladder[harness.Choose(len(ladder), harness.ClassOp)]
+			cache := harness.Choose(3, harness.ClassOp)
+			w.Hist = append(w.Hist, fmt.Sprintf("values of %d bytes/%s", curLen, []string{"flushed+evicted", "reopened", "reopened+GetItem(a,-)"}[cache]))
+			w.SetCollection("x", "nil")
+			for _, k := range keys {
+				w.SetItem("x", k, int32(k[0]%3)+1, mkVal(curLen, k[0]))
+			}
+			w.Flush()
+			switch cache {
+			case 0:
+				w.Evict("x")
+				w.Evict("x")
+			case 1:
+				w.Reopen(true)
+			case 2:
+				w.Reopen(true)
+				w.GetItem("x", kA, false)
+			}
+		},
+		Letters: func(w *harness.World) []Letter {
+			if _, ok := w.Colls["x"]; !ok {
+				return nil
+			}
+			n := curLen
+			var ls []Letter
+			for _, k := range [][]byte{kA, kB} {
+				k := k
+				p := int32(k[0]%3) + 1
+				ls = append(ls,
+					Letter{fmt.Sprintf("Set(%s,same bytes)", k), func(w *harness.World) { w.SetItem("x", k, p, mkVal(n, k[0])) }},
+					Letter{fmt.Sprintf("Set(%s,same length)", k), func(w *harness.World) { w.SetItem("x", k, p, mkVal(n, 'Q')) }},
+					Letter{fmt.Sprintf("Set(%s,+1 byte,prio+1)", k), func(w *harness.World) { w.SetItem("x", k, p+1, mkVal(n+1, 'R')) }},
+					Letter{fmt.Sprintf("Del(%s)", k), func(w *harness.World) { w.Delete("x", k) }},
+					Letter{fmt.Sprintf("GetItem(%s,-)", k), func(w *harness.World) { w.GetItem("x", k, false) }})
+			}
+			return append(ls,
+				Letter{"Exist(c)", func(w *harness.World) { w.Exist("x", kC) }},
+				Letter{"Desc(-)", func(w *harness.World) { w.Visit("x", harness.APIDescend, bs("zz"), false, -1) }},
+				Letter{"Flush", func(w *harness.World) { w.Flush() }},
+				Letter{"Evict", func(w *harness.World) { w.Evict("x") }})
+		}}
 	ph := *p
 	ph.Name, ph.Depth, ph.CBMask = "lazy-with-hooks", d-1, harness.CBBeforeWrite|harness.CBAfterRead|harness.CBValLength
 	return []Profile{conc.Profile(2),
+		sizes.Profile(fmt.Sprintf("3 keys with values of %v bytes, flushed x {evicted, re-opened, re-opened + key-only lookup} x every history of length <= %d over Set of an existing key with the same bytes / other bytes of the same length / one byte more, Delete, key-only lookup and visit, Flush, Evict: overwriting or deleting an item whose value is not cached must not fetch that value, whatever its size", ladder, sd)),
 		ph.Profile(fmt.Sprintf("the same alphabet and oracle with pass-through BeforeItemWrite / AfterItemRead hooks and an ItemValLength callback installed, histories of length <= %d: installing a hook must not make key-only operations read values", d-1)),
 		p.Profile(fmt.Sprintf("every history of length <= %d over Set/Delete on 3 keys, key-only lookups (GetItem, Min, Max, Exist), key-only visits through 3 APIs, Len, one value-loading lookup and visit (to vary what is cached), Flush, Evict, Reopen; at the end of every history the file is re-opened and all key-only operations run again on the never-loaded store. Every ReadAt issued during a key-only call is checked against the value byte ranges of all item records (independent decoder over all roots); every open of a file ending in a root record may only Stat and read inside that record and must leave no node cached", d))}
 }
